@@ -363,6 +363,10 @@ func forRof(f *forExpander) forStateFn {
 func forEmitConsumeStream(f *forExpander) forStateFn {
 	for f.nextToken.typ != tokEOF {
 		f.tokens <- f.nextToken
+		if f.nextToken.typ == tokError {
+			// the stream ends here and nothing follows an error token
+			return nil
+		}
 		f.next()
 	}
 	return nil
